@@ -941,3 +941,37 @@ Proof.
   unfold counts_okb. intros H. apply chk_sound in H. intros steps s o Hs Ho.
   specialize (H steps s o Hs Ho). apply N.leb_le. exact H.
 Qed.
+
+(* ------------------------------------------------------------------ *)
+(* stray separator (or stray '=') at the head of a path, empty path    *)
+(* ------------------------------------------------------------------ *)
+Lemma strcspn_head_hit c r f : f c = true -> strcspn (c :: r) f = 0.
+Proof. intros H. cbn [strcspn]. rewrite H. reflexivity. Qed.
+
+Lemma split_path_stray_head ch p : is_bar_eq ch = true -> split_path (ch :: p) = None.
+Proof.
+  intros H. unfold split_path. cbn [segments].
+  rewrite (segment_nil_name (ch :: p) (strcspn_head_hit ch p is_bar_eq H)). reflexivity.
+Qed.
+
+Lemma split_path_empty : split_path [] = None.
+Proof. reflexivity. Qed.
+
+Theorem stray_head_not_found : forall (w : pw) (c : cfg) (ch : byte) (p : str), counts_ok c ->
+  is_bar_eq ch = true ->
+  rs_opt (getopt_secidx c (ch :: p) false) = None /\ snd (cfg_getsec w c (ch :: p)) = None.
+Proof.
+  intros w c ch p Hc H. split.
+  - rewrite (getopt_is_navigation_ok c _ Hc). unfold navigate_opt.
+    rewrite (split_path_stray_head ch p H). reflexivity.
+  - rewrite (getsec_is_navigation_ok w c _ Hc). unfold navigate_sec.
+    rewrite (split_path_stray_head ch p H). reflexivity.
+Qed.
+
+Theorem empty_path_not_found : forall (w : pw) (c : cfg), counts_ok c ->
+  rs_opt (getopt_secidx c [] false) = None /\ snd (cfg_getsec w c []) = None.
+Proof.
+  intros w c Hc. split.
+  - rewrite (getopt_is_navigation_ok c _ Hc). reflexivity.
+  - rewrite (getsec_is_navigation_ok w c _ Hc). reflexivity.
+Qed.
